@@ -12,7 +12,7 @@ def build_obs(tier, tables=None):
     obs = [o for o in parse_step_obs(["CHK_C14", "CHK_C01"], "c14", states=[2, 3, 4, 5, 8, 9], callbacks=True, tier=tier)
            if "validcb" in o.key or "parsecb" in o.key or "func" in o.key]
     # pre-set validation callback of the by-name setters: veto and rewrite
-    obs += api_obs("c14", ["CHK_C14", "CHK_C10"], ops=("SETNINT_VETO",), tier=tier)
+    obs += api_obs("c14", ["CHK_C14", "CHK_C10"], ops=("SETNINT_VETO", "SETNSTR_VETO", "SETNFLOAT_VETO"), tier=tier)
     # registration by schema path
     obs.append(Ob("c14-register-path", "reg_step.c", [], unwind=3, unwindset=["cfg_getopt_array.0:3", "cfg_getopt_array.1:4", "strcpy.0:6", "strlen.0:6", "strcmp.0:5", "strcspn.0:5", "strcspn.1:3", "strspn.0:5", "strspn.1:3", "v_strndup8.0:9", "alloc_values.0:3", "main.0:5"], checks="none", must_reach=("end of harness", "hit", "miss")))
     obs.append(Ob("c14-register-plain", "reg_step.c", ["-DPLAIN"], unwind=3, unwindset=["cfg_getopt_array.0:3", "cfg_getopt_array.1:4", "strcpy.0:6", "strlen.0:6", "strcmp.0:5", "strcspn.0:5", "strcspn.1:3", "strspn.0:5", "strspn.1:3", "v_strndup8.0:9", "alloc_values.0:3", "main.0:5"], checks="none", must_reach=("end of harness", "hit", "miss")))
